@@ -14,6 +14,7 @@ import (
 	dbm "github.com/tendermint/tm-db"
 
 	bam "github.com/pokt-network/posmint/baseapp"
+	"github.com/pokt-network/posmint/codec"
 	"github.com/pokt-network/posmint/store"
 	"github.com/pokt-network/posmint/store/rootmulti"
 	"github.com/pokt-network/posmint/store/types"
@@ -34,6 +35,72 @@ type Cfg struct {
 	// store.NewPruningOptionsFromString makes of this strategy string (the empty string is a
 	// strategy string too, hence the pointer); KR / KE are then ignored.
 	Strat *string `json:"strat,omitempty"`
+	// Palette: the specification's keys are opaque NAMES ("a", "ab", "b", ...); the bytes the real
+	// stores see are obtained letter by letter through this map (letter -> hex of its image; letters
+	// without an entry stand for themselves).  The images are prefix-free, so the map is injective and
+	// preserves the prefix relation between names; everything reported back is translated to names.
+	Palette map[string]string `json:"palette,omitempty"`
+}
+
+// Conc: key name -> the bytes handed to the stores.
+func (c Cfg) Conc(name string) []byte {
+	if len(c.Palette) == 0 {
+		return []byte(name)
+	}
+	out := []byte{}
+	for i := 0; i < len(name); i++ {
+		if h, ok := c.Palette[name[i:i+1]]; ok {
+			b, err := hex.DecodeString(h)
+			if err != nil {
+				panic("bad palette entry " + h)
+			}
+			out = append(out, b...)
+		} else {
+			out = append(out, name[i])
+		}
+	}
+	return out
+}
+
+// Name: bytes seen in a store -> key name (inverse of Conc; bytes that are nobody's image are
+// rendered as "?<hex>").
+func (c Cfg) Name(b []byte) string {
+	if len(c.Palette) == 0 {
+		return string(b)
+	}
+	out := ""
+	for i := 0; i < len(b); {
+		hit := false
+		for l, h := range c.Palette {
+			img, _ := hex.DecodeString(h)
+			if len(img) > 0 && len(b)-i >= len(img) && string(b[i:i+len(img)]) == string(img) {
+				out += l
+				i += len(img)
+				hit = true
+				break
+			}
+		}
+		if hit {
+			continue
+		}
+		if _, isLetter := c.Palette[string(b[i:i+1])]; isLetter || b[i] < 0x20 || b[i] > 0x7e {
+			return "?" + hex.EncodeToString(b)
+		}
+		out += string(b[i : i+1])
+		i++
+	}
+	return out
+}
+
+func (c Cfg) names(m map[string]string) map[string]string {
+	if len(c.Palette) == 0 {
+		return m
+	}
+	out := map[string]string{}
+	for k, v := range m {
+		out[c.Name([]byte(k))] = v
+	}
+	return out
 }
 
 // Pruning returns the options the stores of this machine are configured with.
@@ -157,7 +224,7 @@ func (h *Handle) Content() (stores M, trans M, perr string) {
 				perr = fmt.Sprintf("%s: Get/Has disagree with iteration on %q", n, k)
 			}
 		}
-		stores[n] = m
+		stores[n] = h.Cfg.names(m)
 	}
 	if h.Cfg.Transient != "" {
 		m, e := iterate(h.MS.GetKVStore(h.Keys[h.Cfg.Transient]))
@@ -165,7 +232,7 @@ func (h *Handle) Content() (stores M, trans M, perr string) {
 			perr = h.Cfg.Transient + ": " + e
 		}
 		trans = M{}
-		for k, v := range m {
+		for k, v := range h.Cfg.names(m) {
 			trans[k] = v
 		}
 	}
@@ -189,9 +256,9 @@ func (h *Handle) Apply(w WOp) string {
 	perr, _ := catch(func() {
 		kv := h.MS.GetKVStore(h.Keys[w.S])
 		if w.Del {
-			kv.Delete([]byte(w.K))
+			kv.Delete(h.Cfg.Conc(w.K))
 		} else {
-			kv.Set([]byte(w.K), []byte(w.V))
+			kv.Set(h.Cfg.Conc(w.K), []byte(w.V))
 		}
 	})
 	return perr
@@ -367,7 +434,7 @@ func (h *Handle) VersionedView(v int64) M {
 				out = M{"ok": false, "err": "unreadable: " + e}
 				return
 			}
-			st[n] = m
+			st[n] = h.Cfg.names(m)
 		}
 		out = M{"ok": true, "stores": st}
 	})
@@ -377,10 +444,10 @@ func (h *Handle) VersionedView(v int64) M {
 	return out
 }
 
-func keyPath(store, key string) string {
+func keyPath(store string, key []byte) string {
 	kp := merkle.KeyPath{}
 	kp = kp.AppendKey([]byte(store), merkle.KeyEncodingHex)
-	kp = kp.AppendKey([]byte(key), merkle.KeyEncodingHex)
+	kp = kp.AppendKey(key, merkle.KeyEncodingHex)
 	return kp.String()
 }
 
@@ -388,8 +455,45 @@ func keyPath(store, key string) string {
 // over the same durable DB (via = "app"), and lets the real proof runtime judge the proof
 // against every known root hash.
 func Query(h *Handle, db dbm.DB, cfg Cfg, via, store, key string, height int64, prove bool, hashes map[int64]string) M {
-	var res abci.ResponseQuery
-	perr, _ := catch(func() {
+	kb := cfg.Conc(key)
+	res, perr := rawQuery(h, db, cfg, via, store, "key", kb, height, prove)
+	if perr != "" {
+		return M{"panic": perr}
+	}
+	return judgeQuery(res, store, kb, hashes)
+}
+
+// Subspace runs a "/<store>/subspace" query for the prefix named `prefix` and decodes the answer:
+// "answered" (a value came back), "kv" (the pairs in the order returned, keys as names), "sorted"
+// (strictly ascending in the real byte order).
+func Subspace(h *Handle, db dbm.DB, cfg Cfg, via, store, prefix string, height int64) M {
+	res, perr := rawQuery(h, db, cfg, via, store, "subspace", cfg.Conc(prefix), height, false)
+	if perr != "" {
+		return M{"panic": perr}
+	}
+	out := M{"code": res.Code, "height": res.Height, "log": res.Log, "answered": res.Value != nil}
+	kv := [][]string{}
+	sorted := true
+	if res.Value != nil {
+		var pairs []types.KVPair
+		if e, _ := catch(func() { codec.New().MustUnmarshalBinaryLengthPrefixed(res.Value, &pairs) }); e != "" {
+			out["decode_error"] = e
+			out["answered"] = false
+		}
+		for i, p := range pairs {
+			if i > 0 && string(pairs[i-1].Key) >= string(p.Key) {
+				sorted = false
+			}
+			kv = append(kv, []string{cfg.Name(p.Key), string(p.Value)})
+		}
+	}
+	out["kv"] = kv
+	out["sorted"] = sorted
+	return out
+}
+
+func rawQuery(h *Handle, db dbm.DB, cfg Cfg, via, store, sub string, kb []byte, height int64, prove bool) (res abci.ResponseQuery, perr string) {
+	perr, _ = catch(func() {
 		switch via {
 		case "app":
 			app := bam.NewBaseApp("q", log.NewNopLogger(), db, nil)
@@ -408,14 +512,15 @@ func Query(h *Handle, db dbm.DB, cfg Cfg, via, store, key string, height int64, 
 			if err := app.LoadLatestVersion(main); err != nil {
 				panic("baseapp load: " + err.Error())
 			}
-			res = app.Query(abci.RequestQuery{Path: "/store/" + store + "/key", Data: []byte(key), Height: height, Prove: prove})
+			res = app.Query(abci.RequestQuery{Path: "/store/" + store + "/" + sub, Data: kb, Height: height, Prove: prove})
 		default:
-			res = h.MS.Query(abci.RequestQuery{Path: "/" + store + "/key", Data: []byte(key), Height: height, Prove: prove})
+			res = h.MS.Query(abci.RequestQuery{Path: "/" + store + "/" + sub, Data: kb, Height: height, Prove: prove})
 		}
 	})
-	if perr != "" {
-		return M{"panic": perr}
-	}
+	return
+}
+
+func judgeQuery(res abci.ResponseQuery, store string, kb []byte, hashes map[int64]string) M {
 	out := M{"code": res.Code, "height": res.Height, "log": res.Log}
 	if res.Value != nil {
 		out["value"] = string(res.Value)
@@ -429,7 +534,7 @@ func Query(h *Handle, db dbm.DB, cfg Cfg, via, store, key string, height int64, 
 	out["nops"] = nops
 	if nops > 0 {
 		prt := rootmulti.DefaultProofRuntime()
-		kp := keyPath(store, key)
+		kp := keyPath(store, kb)
 		var ok []int64
 		vers := make([]int64, 0, len(hashes))
 		for v := range hashes {
@@ -478,7 +583,7 @@ func Query(h *Handle, db dbm.DB, cfg Cfg, via, store, key string, height int64, 
 						bad = append(bad, "value-of-absent")
 					}
 				}
-				if prt.VerifyValue(res.Proof, rb, keyPath(store, key+"~"), res.Value) == nil && res.Value != nil {
+				if prt.VerifyValue(res.Proof, rb, keyPath(store, append(append([]byte{}, kb...), '~')), res.Value) == nil && res.Value != nil {
 					bad = append(bad, "other-key")
 				}
 			})
